@@ -251,6 +251,8 @@ V("C13", "torch-memo-aliases-buffer", "fire", "C13.R5", "torch shim remembers th
   ("src/pyhf/optimize/opt_pytorch.py", '    if do_grad:\n\n        def func(pars):\n            pars = tensorlib.astensor(pars)\n            pars.requires_grad = True\n', "    if do_grad:\n        last = {'pars': None, 'result': None}\n\n        def func(pars):\n            pars = tensorlib.astensor(pars)\n            if last['pars'] is not None and torch.equal(pars, last['pars']):\n                return last['result']\n            pars.requires_grad = True\n"), ("src/pyhf/optimize/opt_pytorch.py", '            return constr_nll.detach().numpy()[0], grad\n', "            last['pars'] = pars.detach()\n            last['result'] = (constr_nll.detach().numpy()[0], grad)\n            return last['result']\n"))
 V("C13", "torch-memo-private-copy", "silent", "", "torch shim remembers the last point as a private copy",
   ("src/pyhf/optimize/opt_pytorch.py", '    if do_grad:\n\n        def func(pars):\n            pars = tensorlib.astensor(pars)\n            pars.requires_grad = True\n', "    if do_grad:\n        last = {'pars': None, 'result': None}\n\n        def func(pars):\n            pars = tensorlib.astensor(pars)\n            if last['pars'] is not None and torch.equal(pars, last['pars']):\n                return last['result']\n            pars.requires_grad = True\n"), ("src/pyhf/optimize/opt_pytorch.py", '            return constr_nll.detach().numpy()[0], grad\n', "            last['pars'] = pars.detach().clone()\n            last['result'] = (constr_nll.detach().numpy()[0], grad)\n            return last['result']\n"))
+V("C01", "histosys-builder-class-level-data", "fire", "C01.R11", "histosys builder collects into ONE class-level dict: a later model sees the earlier model's modifier data",
+  ("src/pyhf/modifiers/histosys.py", "    is_shared = True\n\n    def __init__(self, config):\n        self.builder_data = {}", "    is_shared = True\n    _collected = {}\n\n    def __init__(self, config):\n        self.builder_data = histosys_builder._collected"))
 
 # ------------------------------------------------------------------ C08
 INF = "src/pyhf/infer/__init__.py"
